@@ -150,4 +150,20 @@ PROPS = {
         trusted=["modelled not verified: Tokio scheduler, mpsc/oneshot FIFO and close semantics, time::timeout polling the inner future first, select! as nondeterministic choice among ready branches; script-to-event mapping of the runner (ocaml/connrun.ml settle loop)"],
         assumptions=["callers on a current-thread runtime (Start = allocate id + enqueue atomically)", "histories below the wrap-around of the 31-bit id counter (beyond it: finding F20)"],
     ),
+    "C10": dict(
+        groups=[("stream", 2000, 150000), ("conn", 300, 20000)],
+        exact_lanes=["stream"],
+        rule="server scripts of 0-7 items (entries, references with 1-2 URIs, intermediate responses) ending with a SearchResultDone (rc 0/4/10/32/53, 0-2 referral URIs, 0-2 controls), all delivered before the first call, x call sequences of 0-17 next()/finish()/state() calls in any order including past the end, on direct streams, EntriesOnly-adapted streams and Ldap::search(); plus connection scripts where items arrive between calls. non-trivial = distinct case with at least one call",
+        trivial=[],
+        trusted=["modelled not verified: the adapter chain as structural recursion over [EntriesOnly]; async_trait dispatch; tokio mpsc as a list + closed flag"],
+        assumptions=["user-defined adapters are out of scope", "items are delivered before the calls in the stream lane (timing and interleaving are the conn lane's)"],
+    ),
+    "C16": dict(
+        groups=[("paged", 1500, 100000)],
+        exact_lanes=["paged"],
+        rule="result sets of 0-29 items (entries, references, intermediates) served in pages of 1-8 by a scripted paging server, cookies of 1/2/8/300 bytes, last page with an empty cookie or no paging control, result codes 0/4 on the last page, 0-2 unrelated controls on results, 0-2 caller controls, 1 in 17 with a caller-supplied paging control; the server logs size, cookie, other controls and whether base/scope/filter/attributes/options are unchanged in every request. non-trivial = distinct case with at least one item",
+        trivial=["rejected"],
+        trusted=["modelled not verified: the paging server as a list of pages; the follow-up search replacing the stream's channel"],
+        assumptions=["PagedResults alone in the chain in the model; chaining behind EntriesOnly is exercised only by Ldap::search-style use in other lanes"],
+    ),
 }
